@@ -35,7 +35,7 @@ RULES = {
   (r"moved on a line starting \"case \$w\"", "F-heredoc-comment: a trailing comment after `esac <<EOF && cmd <<-EOF &` (two here-documents on the line of `esac`) is moved into the case item"),
   (r"lost on a line starting \"time ", "F-time-comment: a trailing comment on the line of a for/select header under `time` (before do/{) is dropped"),
   (r"lost on a line starting \"\+heredoc", "F-heredoc-comment: a trailing comment after a here-document operator is dropped when the statement is the operand of `time`, or the redirection follows `esac`, `]]`, `}` ..."),
-  (r"moved on a line starting \"for w \+subst\"", "F-for-subst-comment: a comment after a for-loop word list whose item ends with a multi-line substitution is moved into that substitution"),
+  (r"moved on a line starting \"(own line after )?(case \\\"w|for w) \+subst\"", "F-for-subst-comment: a comment after a for-loop word list whose item ends with a multi-line substitution is moved into that substitution"),
  ],
 }
 prop, keysfile = sys.argv[1], sys.argv[2]
